@@ -22,6 +22,31 @@ type resAcc struct {
 	id     func(w *ecs.World) ecs.ResID
 }
 
+// persistent returns accessors bound to ONE generic.Resource[T] mapper that lives as long as the session
+// (a long-lived mapper must keep agreeing with the world when the resource changes through other paths).
+func mkPersistent[T any](w *ecs.World) resAcc {
+	r := generic.NewResource[T](w)
+	nilIfNil := func(p *T) any {
+		if p == nil {
+			return nil
+		}
+		return p
+	}
+	return resAcc{
+		add:    func(_ *ecs.World, v any) { r.Add(v.(*T)) },
+		get:    func(_ *ecs.World) any { return nilIfNil(r.Get()) },
+		has:    func(_ *ecs.World) bool { return r.Has() },
+		remove: func(_ *ecs.World) { r.Remove() },
+		id:     func(_ *ecs.World) ecs.ResID { return r.ID() },
+	}
+}
+
+var resPersistent = map[string]func(w *ecs.World) resAcc{
+	"S0": mkPersistent[G0], "S1": mkPersistent[G1], "S2": mkPersistent[G2], "S3": mkPersistent[G3], "S4": mkPersistent[G4], "S5": mkPersistent[G5],
+	"S6": mkPersistent[G6], "S7": mkPersistent[G7], "S8": mkPersistent[G8], "S9": mkPersistent[G9], "S10": mkPersistent[G10], "S11": mkPersistent[G11],
+	"R0": mkPersistent[RelA], "R1": mkPersistent[RelB],
+}
+
 func mkRes[T any]() resAcc {
 	nilIfNil := func(p *T) any {
 		if p == nil {
@@ -91,6 +116,22 @@ func checkResources(s *Sess) bool {
 			if acc.has(w) != present {
 				s.fail("res.generic.has", "generic.Resource.Has for resource %d = %v, model %v", i, acc.has(w), present)
 				return false
+			}
+			if pm, ok := s.resMappers[s.ResKeys[i]]; ok {
+				var g any
+				if p := func() (p any) {
+					defer func() { p = recover() }()
+					g = pm.get(w)
+					return nil
+				}(); p != nil {
+					s.fail("res.generic.panic", "a long-lived generic.Resource mapper for resource %d (present=%v) panicked in Get: %v", i, present, p)
+					return false
+				}
+				if ptrOf(g) != ptrOf(want) || (present != (g != nil)) || pm.has(w) != present || pm.id(w) != id {
+					s.fail("res.generic.mapper", "a long-lived generic.Resource mapper for resource %d returns %p (has=%v), the world holds %p (present=%v)", i, g, pm.has(w), want, present)
+					return false
+				}
+				s.Cov.N["res_persistent_mapper_checks"]++
 			}
 			if acc.id(w) != id {
 				s.fail("res.generic.id", "ResourceID[T] differs from ResourceTypeID for resource %d", i)
@@ -179,6 +220,20 @@ func caseC20(c *Ctx) {
 			v := reflect.New(TypeOfKey(s.ResKeys[id])).Interface()
 			acc, gen := resAccs[s.ResKeys[id]]
 			s.Cov.Ops["ResAdd"]++
+			if mk, ok := resPersistent[s.ResKeys[id]]; ok && c.R.Chance(0.4) {
+				if _, have := s.resMappers[s.ResKeys[id]]; !have {
+					if s.resMappers == nil {
+						s.resMappers = map[string]resAcc{}
+					}
+					s.resMappers[s.ResKeys[id]] = mk(s.W)
+				}
+			}
+			if pm, ok := s.resMappers[s.ResKeys[id]]; ok && c.R.Chance(0.3) {
+				pm.add(s.W, v)
+				s.Res.Present[id] = v
+				s.keep = append(s.keep, v)
+				break
+			}
 			switch {
 			case gen && c.R.Chance(0.35):
 				acc.add(s.W, v)
@@ -200,7 +255,9 @@ func caseC20(c *Ctx) {
 			sort.Ints(cands)
 			id := Pick(c.R, cands)
 			s.Cov.Ops["ResRemove"]++
-			if acc, gen := resAccs[s.ResKeys[id]]; gen && c.R.Chance(0.5) {
+			if pm, ok := s.resMappers[s.ResKeys[id]]; ok && c.R.Chance(0.3) {
+				pm.remove(s.W)
+			} else if acc, gen := resAccs[s.ResKeys[id]]; gen && c.R.Chance(0.5) {
 				acc.remove(s.W)
 			} else {
 				s.W.Resources().Remove(s.ResIDs[id])
